@@ -2,7 +2,7 @@
 """Regenerates /verif/MANIFEST.json from the table below (kept in one place so the manifest is always valid)."""
 import json, subprocess, sys
 
-HOOK_COMMITS = ["c491b67", "df520a4", "6c4e0a6"]
+HOOK_COMMITS = ["c491b67", "df520a4", "6c4e0a6", "dde1ea0"]
 
 NA = {
  "C10": "pattern grammar: parseRoute is a pure function of one string and two integer limits; no schedule, history, clock or fault for a simulator to control (a slice of the grammar is exercised inside the C02 model, not claimed)",
